@@ -58,11 +58,13 @@ theorem bookmarks_follow_rho (bks : List Nat) (os : Objects) (bm : BkTable) (pai
   unfold movePass at hrep ⊢
   simp only at hrep ⊢
   rw [hrep, hbm]; rfl
-/-- **C10, dense numbering.** For any document with `1 ≤ start + n ≤ u32::MAX` (n objects, distinct keys)
-the dense pass returns; afterwards the object numbers are exactly `start … start+n-1` (each new id of
-the assignment holds an object and nothing else does) and `max_id` is the last number. -/
+/-- **C10, dense numbering.** For any document (n objects, distinct keys) and any starting number for which
+all new ids fit (`start + n - 1 ≤ u32::MAX`, stated as `start + n ≤ u32::MAX + 1`; no condition when the
+document is empty) the dense pass returns; afterwards the object numbers are exactly `start … start+n-1`
+(each new id of the assignment holds an object and nothing else does) and `max_id` is the last number
+(`start - 1`, or 0, for an empty document). -/
 theorem renumber_dense (d1 : Doc) (start : Nat) (hnd : d1.objects.keys.Nodup)
-    (hlo : 1 ≤ start + d1.objects.length) (hhi : start + d1.objects.length ≤ U32_MAXE) :
+    (hhi : start + d1.objects.length ≤ U32_MAXE + 1) :
     ∃ d', densePass d1 start = .ok d' ∧ d'.maxId = start + d1.objects.length - 1 ∧
       (assign (sortBy idLeE d1.objects.keys) start).map (fun p => p.2.1) = List.range' start d1.objects.length ∧
       ∀ k, (d'.objects.get k).isSome ↔ ∃ p ∈ assign (sortBy idLeE d1.objects.keys) start, p.2 = k := by
@@ -75,8 +77,6 @@ theorem renumber_dense (d1 : Doc) (start : Nat) (hnd : d1.objects.keys.Nodup)
   unfold densePass
   rw [densePairs_eq _ _ _ (by rw [hlen]; exact hhi)]
   simp only [List.nil_append, hlen]
-  have h0 : ¬ (start + d1.objects.length = 0) := by omega
-  simp only [h0, if_false]
   refine ⟨_, rfl, rfl, ?_, ?_⟩
   · rw [assign_numbers, hlen]
   · intro k
@@ -85,14 +85,21 @@ theorem renumber_dense (d1 : Doc) (start : Nat) (hnd : d1.objects.keys.Nodup)
     rw [(traverse_visits_once _ _ _).2.2 k]
     split <;> simp
 
-/-- F-C10-c: outside `1 ≤ start + n` the code panics (`new_id - 1` on an empty document with start 0) -/
-theorem start0_empty_panics (tr : Dict) (bks : List Nat) (bm : BkTable) (m : Nat) :
-    densePass ⟨tr, [], m, bks, bm⟩ 0 = .panic "sub" := by
-  simp [densePass, densePairs, sortBy, Objects.keys]
+/-- (F-C10-c fixed) start 0 on an empty document returns, with `max_id = 0` -/
+theorem start0_empty_ok (tr : Dict) (bks : List Nat) (bm : BkTable) (m : Nat) :
+    ∃ d', densePass ⟨tr, [], m, bks, bm⟩ 0 = .ok d' ∧ d'.maxId = 0 := by
+  obtain ⟨d', h1, h2, _⟩ := renumber_dense ⟨tr, [], m, bks, bm⟩ 0 (by simp [Objects.keys]) (by simp)
+  exact ⟨d', h1, by simpa using h2⟩
 
-/-- F-C10-c: `new_id += 1` overflows when `start + n > u32::MAX`, even though every assigned id fits -/
-theorem overflow_panics : densePass wdoc (U32_MAXE - 4) = .panic "add" := by
-  have : densePairs (sortBy idLeE wdoc.objects.keys) (U32_MAXE - 4) [] = none := by decide
+/-- (F-C10-c fixed) 5 objects from `u32::MAX - 4`: every id fits, the call returns and `max_id = u32::MAX` -/
+theorem last_id_u32max_ok : ∃ d', densePass wdoc (U32_MAXE - 4) = .ok d' ∧ d'.maxId = U32_MAXE := by
+  obtain ⟨d', h1, h2, _⟩ := renumber_dense wdoc (U32_MAXE - 4) (by decide) (by decide)
+  exact ⟨d', h1, by rw [h2]; decide⟩
+
+/-- domain boundary: when the ids do NOT fit (`start + n - 1 > u32::MAX`) the addition that computes the
+number overflows (overflow checks on) — no correct result exists -/
+theorem ids_do_not_fit_panics : densePass wdoc (U32_MAXE - 3) = .panic "add" := by
+  have : densePairs (sortBy idLeE wdoc.objects.keys) (U32_MAXE - 3) [] = none := by decide
   simp [densePass, this]
 
 /-- **F-C10-b (counter-witness).** Objects 1,2,3,4,8 and a dangling `5 0 R`: the reference resolves to
@@ -109,7 +116,7 @@ theorem dangling_capture_witness :
         (renameFn pairs (.ref 5 0)).asRef = some (5, 0)) ∧
     ∃ d', densePass wdoc2 1 = .ok d' ∧ (d'.objects.get (5, 0)).isSome := by
   refine ⟨by decide, ⟨[((8,0),(5,0))], 6, by decide, by decide⟩, ?_⟩
-  obtain ⟨d', h1, _, _, h4⟩ := renumber_dense wdoc2 1 (by decide) (by decide) (by decide)
+  obtain ⟨d', h1, _, _, h4⟩ := renumber_dense wdoc2 1 (by decide) (by decide)
   exact ⟨d', h1, (h4 (5,0)).mpr (by decide)⟩
 
 /-! ### bookmarks: what is true, and when -/
@@ -365,14 +372,14 @@ theorem rho_assign (ids : List ObjId) (s : Nat) (hn : ids.Nodup) : ∀ p ∈ ass
     simp [rhoFn, this]
 
 /-- **C10, renumber_iso when the pages are already in id order (partial: no page reordering).**
-For every document with a sorted object map and `1 ≤ start + n ≤ u32::MAX` whose page-order pass is the
+For every document with a sorted object map and `start + n - 1 ≤ u32::MAX` (all new ids fit) whose page-order pass is the
 identity, `renumber_objects_with(start)` returns a document `d'` and there is a renaming `rho` — the dense
 assignment — that is one-to-one on the document's ids, with `trailer' = rename rho trailer`, and the object of
 every id `old` found at `rho old`: renamed by `rho` when it is reachable from the new trailer, untouched
 otherwise. -/
 theorem renumber_iso_noreorder (d : Doc) (start : Nat) (hs : d.objects.Sorted)
-    (hno : pagePairs (pageIter d.trailer d.objects) = none)
-    (hlo : 1 ≤ start + d.objects.length) (hhi : start + d.objects.length ≤ U32_MAXE) :
+    (hno : pagePairs (firstOcc (pageIter d.trailer d.objects)) = none)
+    (hhi : start + d.objects.length ≤ U32_MAXE + 1) :
     ∃ d' rho, renumber d start = .ok d' ∧
       (∀ p ∈ assign (sortBy idLeE d.objects.keys) start, rho p.1 = p.2) ∧
       (∀ a b, (d.objects.get a).isSome → (d.objects.get b).isSome → rho a = rho b → a = b) ∧
@@ -419,8 +426,6 @@ theorem renumber_iso_noreorder (d : Doc) (start : Nat) (hs : d.objects.Sorted)
     unfold renumber densePass
     rw [hpp, hids, densePairs_eq _ _ _ (by rw [hlen]; exact hhi)]
     simp only [List.nil_append, hlen]
-    have h0 : ¬ (start + d.objects.length = 0) := by omega
-    simp only [h0, if_false]
   refine ⟨_, rhoFn (denseSpec ids start), hren, hrho, ?_, ?_, ?_⟩
   · intro a b ha hb e
     have ha' := (hk a).mpr ha; have hb' := (hk b).mpr hb
@@ -442,7 +447,7 @@ theorem renumber_iso_noreorder (d : Doc) (start : Nat) (hs : d.objects.Sorted)
       have hnin : ¬ _ := fun hin => hr ((traverse_eq_reach _ _ _ _).mp hin)
       rw [hobj]; simp [hnin]
 
-example : pagePairs (pageIter [] [((3, 0), Obj.null), ((7, 0), Obj.null)]) = none ∧
+example : pagePairs (firstOcc (pageIter [] [((3, 0), Obj.null), ((7, 0), Obj.null)])) = none ∧
     Objects.Sorted [((3, 0), Obj.null), ((7, 0), Obj.null)] := by
   constructor
   · decide
